@@ -126,7 +126,7 @@ CLAIMS = {
                   "the real moves' event logs + replay of those logs in the simulator",
         ref="§3 C08"),
     "C09": dict(
-        text="Model/Runtime.lean is the analysis of analysis/runtime.py on the program language (both branches, loop body once, "
+        text="C09_fuel_independent: a finished analysis answer does not depend on the analysis budget (ana_mono). Model/Runtime.lean is the analysis of analysis/runtime.py on the program language (both branches, loop body once, "
              "invoked subroutines, closures, recursion cut-off, dynamic call = refusal); which statements mark a frame quantum is a "
              "table regenerated from the 'runtime' method-table registry on every run and C09_registry_complete / _exact are decided "
              "over it. The model's answer is compared with RuntimeAnalysis.has_quantum_runtime on generated programs, and the "
